@@ -4,8 +4,8 @@
   seeded.py confirm <src_dir> <prop> <name>   confirm an independently written change in a scratch worktree:
         patch applies, tree builds, `make check` passes WITH the change, the demonstration FAILS with it and
         PASSES without it; on success copy patch.diff + demo + README into /verif/seeded/<name>/ with meta.json
-  seeded.py run <name> [--tier quick] [--props C01,C08]   apply seeded/<name>/patch.diff to /repo, run the check(s),
-        revert (/repo is restored whatever happens), record the outcome in seeded/<name>/meta.json
+  seeded.py run <name> [--tier quick] [--props C01,C08]   apply seeded/<name>/patch.diff to a scratch copy of /repo, run the
+        check(s) from a scratch copy of /verif against it, record the outcome in seeded/<name>/meta.json
   seeded.py table                               print the catch table (for DESIGN.md)
 """
 import glob, json, os, shutil, subprocess, sys, time
@@ -102,32 +102,36 @@ def confirm(src, prop, name):
 
 
 def run(name, tier="quick", props=None):
+    """run the check(s) against a scratch copy of /repo with the seeded change applied, from a scratch copy of /verif
+    (so neither /repo nor /verif/coq/gen is touched and several runs can go on at once); record the outcome"""
     d = os.path.join(SEEDED, name)
     meta = json.load(open(os.path.join(d, "meta.json")))
     props = props or [meta["breaks_property"]]
     patch = os.path.join(d, "patch.diff")
-    rc, out = sh(["git", "-C", REPO, "status", "--porcelain"])
-    if out.strip():
-        print("/repo is not clean; refusing")
-        return 2
-    rc, out = sh(["git", "-C", REPO, "apply", patch])
-    if rc != 0:
-        print("patch does not apply to /repo:", out[-300:])
-        return 2
+    wr = "/tmp/seedrun-%s-repo" % name
+    wv = "/tmp/seedrun-%s-verif" % name
     results = []
     try:
+        sh("rm -rf %s %s" % (wr, wv))
+        sh("rsync -a --exclude .git %s/ %s/" % (REPO, wr))
+        rc, out = sh("patch -p1 -s -d %s < %s" % (wr, patch))
+        if rc != 0:
+            print("patch does not apply:", out[-300:])
+            return 2
+        sh("rsync -a --exclude .git --exclude evidence --exclude seeded %s/ %s/" % (V, wv))
+        os.makedirs(os.path.join(wv, "evidence"), exist_ok=True)
+        shutil.copy(os.path.join(V, "known_findings.json"), wv)
         for p in props:
             t0 = time.time()
-            rc, out = sh(["python3", os.path.join(V, "tools", "check.py"), p, "--tier", tier], cwd=V, timeout=3000)
-            viol = [l for l in out.splitlines() if l.startswith("VIOLATION") or l.startswith("  -> ")]
+            rc, out = sh(["python3", os.path.join(wv, "tools", "check.py"), p, "--tier", tier], cwd=wv, timeout=3000,
+                         env={"VERIF_REPO": wr})
+            viol = [l.replace(wv, "/verif").replace(wr, "/repo") for l in out.splitlines() if l.startswith("VIOLATION") or l.startswith("  -> ")]
             results.append({"check": p, "tier": tier, "exit": rc, "caught": rc == 1 and any(l.startswith("VIOLATION") for l in viol),
                             "no_failing_input": any("no-failing-input-found" in l for l in viol),
                             "first_lines": viol[:4], "wall_s": round(time.time() - t0, 1)})
-            print(p, "exit", rc, "|", (viol[1] if len(viol) > 1 else viol[:1]))
+            print(name, p, "exit", rc, "|", (viol[1] if len(viol) > 1 else viol[:1]))
     finally:
-        sh(["git", "-C", REPO, "checkout", "--", "."])
-        # regenerate facts from the restored tree so that coq/gen is back to /repo's values
-        sh(["python3", os.path.join(V, "tools", "gen_facts.py")], cwd=V)
+        sh("rm -rf %s %s" % (wr, wv))
     meta.setdefault("check_runs", [])
     meta["check_runs"] = [r for r in meta["check_runs"] if (r["check"], r["tier"]) not in [(x["check"], x["tier"]) for x in results]] + results
     json.dump(meta, open(os.path.join(d, "meta.json"), "w"), indent=1)
